@@ -475,7 +475,8 @@ SPEC = PropSpec(
                  "R17.3: inheritor lists have one writer; mutable dataclass defaults are factories."
                  ' Graph variants include unconditional inheritance and a forward-referenced diamond (a container nested directly and through another nested container).'
                  ' After a load that was rejected half-way, documents with deleted definitions are still rejected and the valid document still loads consistently; the same through load_xml and a path whose file changed; an unused parameter must still name a defined type.'
-                 ' Duplicates that differ only in a short or long description are conflicting duplicates.'),
+                 ' Duplicates that differ only in a short or long description are conflicting duplicates.'
+                 ' Duplicates that differ only in a useCalibratedValue (Comparison of the hand-written document, Condition operand of the all-features document) are conflicting duplicates.'),
     rule_doc="R17.g per element order; R17.c per corruption; R17.1 per registry insert; R17.3 per writer/default",
     assumptions=["lxml ElementPath semantics as modelled", "cycles are rejected through Python's recursion limit (RecursionError)"],
     mutants=mutants,
